@@ -85,7 +85,12 @@ func runC11(c *fw.Case) (o fw.Outcome) {
 			msin := digits(r, msinLen)
 			imsi := mcc + mnc + msin
 			n++
-			suci := stgutg.EncodeSuci([]byte(imsi), mncLen)
+			iview, idmg := guarded(r, []byte(imsi))
+			suci := stgutg.EncodeSuci(iview, mncLen)
+			if d := idmg(false); d != "" {
+				o.Fail("imsi-buffer-written", "EncodeSuci(%s,%d): %s", imsi, mncLen, d)
+				return
+			}
 			if suci == nil || int(suci.Len) != len(suci.Buffer) {
 				o.Fail("suci-len", "EncodeSuci(%s,%d): Len %d but %d octets", imsi, mncLen, suci.Len, len(suci.Buffer))
 				return
